@@ -27,7 +27,7 @@ const char *g_probe_name[MAXPROBE];
 static int nprobe;
 
 static const world_t *worlds[] = {
-    &world_lists, &world_trees, &world_heap,
+    &world_lists, &world_trees, &world_heap, &world_map, &world_hash,
 };
 #define NWORLDS (sizeof(worlds) / sizeof(worlds[0]))
 
@@ -123,12 +123,19 @@ void ev(const char *what, uint64_t a, uint64_t b, uint64_t c)
 
 /* ------------------------------------------------------------ violations */
 
+static char fe_desc_buf[64] = "none";
+const char *g_fe_desc = fe_desc_buf;
+
 static void vrecord(const char *key, const char *fmt, va_list ap)
 {
     if (g_run.violated) return;
     g_run.violated = 1;
     snprintf(g_run.key, sizeof g_run.key, "%s", key);
     vsnprintf(g_run.detail, sizeof g_run.detail, fmt, ap);
+    if (g_fe_desc[0] != 'n') {
+        size_t l = strlen(g_run.detail);
+        snprintf(g_run.detail + l, sizeof g_run.detail - l, " [allocation faults %s]", g_fe_desc);
+    }
     g_run.vstep = g_run.step;
     {   /* keep result lines parseable */
         char *p;
@@ -310,6 +317,77 @@ static void arm_watchdog(int seconds)
     memset(&it, 0, sizeof it);
     it.it_value.tv_sec = seconds;
     setitimer(ITIMER_REAL, &it, NULL);
+}
+
+/* ------------------------------------------------- fault enumeration (C16) */
+
+static unsigned char fe_bitmap[8192];
+static unsigned fe_nbits, fe_suffix;
+void faultenum_apply(void)
+{
+    simheap_fail_global(fe_nbits ? fe_bitmap : NULL, fe_nbits, fe_suffix);
+}
+
+static void fe_set(unsigned a, unsigned b, unsigned c, unsigned suffix, unsigned nbits)
+{
+    memset(fe_bitmap, 0, sizeof fe_bitmap);
+    fe_nbits = 0; fe_suffix = suffix;
+    if (a) { fe_bitmap[a >> 3] |= (unsigned char)(1u << (a & 7)); fe_nbits = nbits; }
+    if (b) fe_bitmap[b >> 3] |= (unsigned char)(1u << (b & 7));
+    if (c) fe_bitmap[c >> 3] |= (unsigned char)(1u << (c & 7));
+    if (suffix) snprintf(fe_desc_buf, sizeof fe_desc_buf, "suffix:%u", suffix);
+    else if (c) snprintf(fe_desc_buf, sizeof fe_desc_buf, "triple:%u,%u,%u", a, b, c);
+    else if (b) snprintf(fe_desc_buf, sizeof fe_desc_buf, "pair:%u,%u", a, b);
+    else if (a) snprintf(fe_desc_buf, sizeof fe_desc_buf, "single:%u", a);
+    else snprintf(fe_desc_buf, sizeof fe_desc_buf, "none");
+}
+
+static void fe_once(const plan_t *p, void (*once)(const plan_t *), const char *kind)
+{
+    uint64_t before;
+    g_run.ended_by_abort = 0;
+    once(p);
+    before = g_hs.fired;
+    if (before > 0) {
+        if (kind[0] == 's' && kind[1] == 'i') PROBE("c16_single_fired");
+        else if (kind[0] == 's') PROBE("c16_suffix_fired");
+        else if (kind[0] == 'p') PROBE("c16_pair_fired");
+        else PROBE("c16_triple_fired");
+    }
+    if (g_run.ended_by_abort) PROBE("c16_ended_by_documented_abort");
+    PROBE("c16_faulted_executions");
+}
+
+void faultenum(const plan_t *p, void (*once)(const plan_t *))
+{
+    unsigned n, a, b, c;
+    prng_t r;
+    fe_set(0, 0, 0, 0, 0);
+    once(p);
+    if (g_run.ended_by_abort) sim_harness_bug("faultenum: the fault-free dry run ended in an abort");
+    n = (unsigned)g_hs.lib_allocs;
+    if (n > 60000) n = 60000;
+    PROBE("c16_scripts"); PROBE_N("c16_alloc_sites_in_scripts", n);
+    for (a = 1; a <= n; a++) { fe_set(a, 0, 0, 0, n + 1); fe_once(p, once, "single"); }
+    for (a = 1; a <= n; a++) { fe_set(0, 0, 0, a, 0); fe_once(p, once, "suffix"); }
+    if (n <= 40) {
+        for (a = 1; a <= n; a++) for (b = a + 1; b <= n; b++) { fe_set(a, b, 0, 0, n + 1); fe_once(p, once, "pair"); }
+    } else {
+        unsigned k;
+        prng_seed(&r, plan_hash(p));
+        for (k = 0; k < 400; k++) {
+            a = 1 + (unsigned)prng_below(&r, n); b = 1 + (unsigned)prng_below(&r, n);
+            if (a == b) continue;
+            if (a > b) { unsigned t = a; a = b; b = t; }
+            fe_set(a, b, 0, 0, n + 1); fe_once(p, once, "pair");
+        }
+    }
+    if (n <= 12)
+        for (a = 1; a <= n; a++) for (b = a + 1; b <= n; b++) for (c = b + 1; c <= n; c++) {
+            fe_set(a, b, c, 0, n + 1); fe_once(p, once, "triple");
+        }
+    fe_set(0, 0, 0, 0, 0);
+    g_run.ended_by_abort = 0;
 }
 
 /* -------------------------------------------------------------- plan I/O */
@@ -534,6 +612,11 @@ int main(int argc, char **argv)
             run_plan(w, &g_plan, i, trace);
             print_result("R", i, ph);
             if (pf && g_run.nontrivial) fwrite(&ph, 8, 1, pf);
+            if (g_run.violated && strstr(g_run.key, "/heap/") != NULL && i + 1 < to) {
+                /* the library wrote where it must not: this process's memory is no longer trustworthy */
+                printf("RESTART %lld\n", i + 1);
+                break;
+            }
         }
         if (pf) fclose(pf);
         if (states_path) sset_dump(states_path);
